@@ -54,6 +54,9 @@ public:
         if (d.continuation()) {
             if (d.isContextAlive()) {
                 d.invokeContinuation(&value);
+            } else {
+                // the continuation can never run: release it (and what it captured) now
+                d.setContinuation({});
             }
         } else {
             d.setResult(new U(std::move(value)));
@@ -70,6 +73,8 @@ public:
             if (d.isContextAlive()) {
                 T convertedValue { std::move(value) };
                 d.invokeContinuation(&convertedValue);
+            } else {
+                d.setContinuation({});
             }
         } else {
             d.setResult(new T(std::move(value)));
@@ -84,6 +89,8 @@ public:
         if (d.continuation()) {
             if (d.isContextAlive()) {
                 d.invokeContinuation(nullptr);
+            } else {
+                d.setContinuation({});
             }
         }
     }
